@@ -115,6 +115,17 @@ def run(chk):
         srcs[sid] = "package %s\n\n%s" % (sid, body)
         items.append((sid, srcs[sid], "T"))
         names[sid] = "syntax:" + desc
+    # the same shapes with ONE leaf type throughout (the per-type field code of the generated package is emitted once
+    # per primitive type and shared by all columns of that type: columns of equal type but different repetition
+    # meet only when types repeat); int32 and string alternate per shape
+    uni = shapes.corpus(3) + ([f for f in shapes.corpus(4) if sum(1 for c in shapes.name_of(f) if c in "rom") == 4] if thorough else [])
+    for k, f in enumerate(uni):
+        if sum(1 for c in shapes.name_of(f) if c in "rom") < 2:
+            continue
+        sid = "u%04d" % k
+        srcs[sid] = shapes.render(f, sid, prims=[["int32"], ["string"]][k % 2])
+        items.append((sid, srcs[sid], "T"))
+        names[sid] = "uniform:" + shapes.name_of(f)
     with Lock():
         cov["steps"] = rebuild_tools(chk.log)
         cov["steps"]["zoo"] = build_zoo(chk.log)
@@ -157,7 +168,8 @@ def run(chk):
         if kind == "model-tie":
             tie_breaks.append({"shape": names[sid], "what": detail})
             continue
-        match = kshape.get((names[sid], kind))
+        # a uniform-type rendering of a shape that is a known finding fails for the same reason
+        match = kshape.get((names[sid], kind)) or kshape.get((names[sid].replace("uniform:", ""), kind))
         if match is not None:
             if id(match) not in hit:
                 hit.add(id(match))
